@@ -48,8 +48,9 @@ func (l *DeadlineLimiter) tryAcquire(ctx context.Context) (listener core.Listene
 			return nil, false
 		}
 
-		// if the deadline has passed, fail quickly
-		if time.Now().UTC().After(l.deadline) {
+		// if the deadline has been reached, fail quickly (a waiter woken by its timer exactly at the deadline would
+		// otherwise compute a zero timeout and wait without any timer)
+		if !time.Now().UTC().Before(l.deadline) {
 			return nil, false
 		}
 
